@@ -158,7 +158,7 @@ fn ex_json(ex: &Exchange) -> Value {
 /// or None if the mutation degenerates to the authentic exchange.
 type Mutated = (String, Option<Vec<u8>>, Vec<u8>, Vec<u8>, u64, [u8; 32]);
 
-const N_STRUCT: usize = 32;
+const N_STRUCT: usize = 33;
 
 fn flip(v: &mut [u8], bit: usize) {
     v[bit / 8] ^= 1 << (bit % 8);
@@ -285,6 +285,50 @@ fn structural(ex: &Exchange, kind: usize, t: &mut Tape) -> Option<Mutated> {
             let mut sig = vec![0x30, body.len() as u8];
             sig.extend(body);
             base("well-formed DER signature with a degenerate scalar (0 or >= n)", w(&format!("{}:{}", hex::encode(sig), hex::encode(rh))))
+        }
+        32 => {
+            // the authentic signature with a request hash that differs from the true one in several bytes at once
+            // (swapped, reversed, the same mask on two or four bytes, all bytes changed): any aggregate comparison
+            // (xor / sum of the deltas) can cancel where a bytewise one cannot
+            let mut h = rh;
+            let (i, j) = (t.choose(32), t.choose(32));
+            let mask = 1 + t.choose(255) as u8;
+            let what = match t.choose(6) {
+                0 => {
+                    h.swap(i, j);
+                    "two bytes swapped"
+                }
+                1 => {
+                    h[i] ^= mask;
+                    h[j] ^= mask;
+                    "one mask on two bytes"
+                }
+                2 => {
+                    for k in 0..4 {
+                        h[(i + 7 * k) % 32] ^= mask;
+                    }
+                    "one mask on four bytes"
+                }
+                3 => {
+                    h.reverse();
+                    "bytes reversed"
+                }
+                4 => {
+                    h[i] = h[i].wrapping_add(mask);
+                    h[j] = h[j].wrapping_sub(mask);
+                    "plus and minus one delta"
+                }
+                _ => {
+                    for b in h.iter_mut() {
+                        *b ^= mask;
+                    }
+                    "one mask on every byte"
+                }
+            };
+            if h == rh {
+                return None;
+            }
+            base(&format!("authentic signature, request hash with {what}"), w(&format!("{}:{}", hex::encode(&der), hex::encode(h))))
         }
         30 => {
             // the authentic signature in another encoding: fixed-width r || s instead of DER
